@@ -363,6 +363,102 @@ example :
       Spec.c10Holds E cfg' .serveHandleF sr o' = true := by
   decide
 
+/-! ### non-vacuity (audit): every theorem with hypotheses instantiated on one configuration with
+    filters at all three levels; `Spec.c10Holds` falsified by wrong observations -/
+namespace C10Example
+
+def E0 : ReEnv := ⟨fun _ _ => true, fun _ _ => true⟩
+def fl (id : Nat) (kind : FKind) (pre : List Act := []) (post : List Act := []) : Filter :=
+  { id := id, pre := pre, kind := kind, post := post }
+def routing : Config := { router := .curly, services := [{ id := 0, root := "/a".toList, routes :=
+  [{ id := 7, method := "GET".toList, relPath := "/early".toList, consumes := [], produces := [], conds := [], noct := [] },
+   { id := 8, method := "GET".toList, relPath := "/late".toList, consumes := [], produces := [], conds := [], noct := [] },
+   { id := 9, method := "GET".toList, relPath := "/ok".toList, consumes := [], produces := [], conds := [], noct := [] }] }] }
+
+/-- recovery and encoding on, custom recover handler (503 + one byte); two container filters, a
+    service filter; route 7: its route filter panics BEFORE passing control on, nothing written yet;
+    route 8: the route function writes a byte, then its route filter panics AFTER control came back;
+    route 9: no panic -/
+def cfg : Cfg :=
+  { routing := routing
+    cfilters := [fl 1 .pass, fl 2 .pass]
+    svcs := [{ id := 0, filters := [fl 3 .pass] }]
+    routes := [{ id := 7, filters := [fl 4 .pass [.panic "early".toList]], script := [.write "x".toList] },
+               { id := 8, filters := [fl 5 .pass [] [.panic "late".toList]], script := [.write "y".toList] },
+               { id := 9, filters := [fl 6 .pass], script := [.write "z".toList] }]
+    encoding := true
+    recover := true
+    recoverScript := some [.writeHeader 503, .write "r".toList] }
+/-- the same with the default recover handler / with recovery off -/
+def cfgDefault : Cfg := { cfg with recoverScript := none }
+def cfgOff : Cfg := { cfg with recover := false }
+
+def rq (p : String) : SReq := { req := { method := "GET".toList, path := p.toList }, acceptEncoding := "gzip".toList }
+def early : SReq := rq "/a/early"
+def late : SReq := rq "/a/late"
+def ok : SReq := rq "/a/ok"
+def oE : Spec.Obs := Spec.obsOf (serve E0 cfg .dispatch {} early)
+def oL : Spec.Obs := Spec.obsOf (serve E0 cfg .dispatch {} late)
+def oK : Spec.Obs := Spec.obsOf (serve E0 cfg .dispatch {} ok)
+def oOff : Spec.Obs := Spec.obsOf (serve E0 cfgOff .dispatch {} early)
+
+/-- what the model does: the early panic gets the recover handler's 503 and its byte, coded and
+    complete; the late panic keeps the 200 locked by the route function's byte; no panic, no recover
+    call; with recovery off the early panic reaches the caller -/
+example :
+    raised E0 cfg .dispatch early = some "early".toList ∧ raised E0 cfg .dispatch late = some "late".toList ∧
+    raised E0 cfg .dispatch ok = none ∧ Spec.recoverPanicsEarly cfg = false ∧
+    oE.status = 503 ∧ oE.body = "r".toList ∧ oE.recov = 1 ∧ oE.coded = true ∧ oE.complete = true ∧ oE.acq = 1 ∧ oE.rel = 1 ∧
+    oE.escaped = none ∧
+    oL.status = 200 ∧ oL.body = "yr".toList ∧ oL.recov = 1 ∧ oL.coded = true ∧ oL.complete = true ∧ oL.acq = 1 ∧ oL.rel = 1 ∧
+    oL.escaped = none ∧
+    oK.status = 200 ∧ oK.body = "z".toList ∧ oK.recov = 0 ∧ oK.coded = true ∧ oK.complete = true ∧ oK.acq = 1 ∧ oK.rel = 1 ∧
+    oK.escaped = none ∧
+    oOff.escaped = some "early".toList ∧ oOff.recov = 0 ∧ oOff.acq = 1 ∧ oOff.rel = 1 := by
+  decide
+
+/-- `C10_recovery` (its hypothesis is an implication whose premise holds here) -/
+example : Spec.c10Holds E0 cfg .dispatch early oE = true := C10_recovery E0 cfg .dispatch early (fun _ => by decide)
+example : Spec.c10Holds E0 cfg .dispatch late oL = true := C10_recovery E0 cfg .dispatch late (fun _ => by decide)
+/-- `C10_on`, `C10_status`, `C10_status_default` -/
+example := C10_on E0 cfg .serveDispatch {} late (.inr (.inl rfl)) rfl
+example := C10_on E0 cfg .serveHandleF {} late (.inr (.inr ⟨.inr rfl, by decide⟩)) rfl
+example : (Spec.obsOf (serve E0 cfg .dispatch ⟨4, 4⟩ early)).status = Spec.recoverStatus cfg :=
+  C10_status E0 cfg .dispatch ⟨4, 4⟩ early (.inl rfl) rfl (by decide) (by decide) (by decide)
+example : (Spec.obsOf (serve E0 cfgDefault .dispatch {} early)).status = 500 :=
+  C10_status_default E0 cfgDefault .dispatch {} early (.inl rfl) rfl rfl (by decide) (by decide)
+/-- `C10_off`, `C10_plain_propagates` -/
+example := C10_off E0 cfgOff .dispatch {} early rfl
+example := C10_plain_propagates E0 { cfg with plainScript := [.panic "h".toList] } .muxHandle {} early (.inl rfl)
+/-- `C10_balanced_from`, `C10_usable_ledger` (a balanced, used ledger; panicking and normal requests mixed) -/
+example := C10_balanced_from E0 cfg .dispatch ⟨4, 4⟩ late rfl
+example := C10_usable_ledger E0 cfg .dispatch ⟨4, 4⟩ [early, late, ok, early] rfl
+example := C10_usable E0 cfg .dispatch ⟨4, 4⟩ [early, late, ok, early]
+
+/-- `Spec.c10Holds` is not trivially true.  Recovery on, panic before anything was written: falsified
+    by a panic that escapes; two recover calls; none; the status 200; the default 500 where the custom
+    handler says 503; a compressor not released; a ledger anomaly; an incomplete coded stream.  No
+    panic: falsified by a recover call.  Recovery off: falsified by a swallowed panic, another panic
+    value, a compressor lost. -/
+example :
+    Spec.c10Holds E0 cfg .dispatch early { oE with escaped := some "early".toList } = false ∧
+    Spec.c10Holds E0 cfg .dispatch early { oE with recov := 2 } = false ∧
+    Spec.c10Holds E0 cfg .dispatch early { oE with recov := 0 } = false ∧
+    Spec.c10Holds E0 cfg .dispatch early { oE with status := 200 } = false ∧
+    Spec.c10Holds E0 cfg .dispatch early { oE with status := 500 } = false ∧
+    Spec.c10Holds E0 cfg .dispatch early { oE with rel := 0 } = false ∧
+    Spec.c10Holds E0 cfg .dispatch early { oE with dbl := 1 } = false ∧
+    Spec.c10Holds E0 cfg .dispatch early { oE with complete := false } = false ∧
+    Spec.c10Holds E0 cfg .dispatch ok oK = true ∧
+    Spec.c10Holds E0 cfg .dispatch ok { oK with recov := 1 } = false ∧
+    Spec.c10Holds E0 cfgOff .dispatch early oOff = true ∧
+    Spec.c10Holds E0 cfgOff .dispatch early { oOff with escaped := none } = false ∧
+    Spec.c10Holds E0 cfgOff .dispatch early { oOff with escaped := some "other".toList } = false ∧
+    Spec.c10Holds E0 cfgOff .dispatch early { oOff with rel := 0 } = false := by
+  decide
+
+end C10Example
+
 /-! The frame condition (Lemmas/StateShape.lean): the code has exactly the state this property's model
     accounts for — no further package-level variable, struct type or field; constants as modelled. -/
 -- also: Restful.StateShape.globals_shape
